@@ -184,6 +184,15 @@ class Gen:
         if is_flags:
             bits = rng.sample(range(0, min(w - 1, 12)), n) if explicit else list(range(n))
             values = [1 << b for b in (sorted(bits) if explicit else bits)]
+            if explicit and n >= 2 and rng.random() < 0.5:
+                # members that cover several bits: a union of two others declared BEFORE them, and one that overlaps another partially
+                comp = values[0] | values[1]
+                values = [comp] + values
+                syms = ["vall"] + syms
+                free = [b for b in range(0, min(w - 1, 12)) if not any(v >> b & 1 for v in values)]
+                if free and rng.random() < 0.5:
+                    values.append(values[-1] | (1 << free[0]))
+                    syms.append("vovl")
         else:
             if explicit:
                 lo = -(2 ** (w - 1)) if signed else 0
